@@ -178,3 +178,43 @@ def r5(c):
 def r6(c):
     from rules import c05
     c05.r7(c)
+
+
+CO = 'rodbus::types::ClientOptions'
+
+
+def builder_discipline(c, adt, setters):
+    """every by-value builder method of `adt` sets its own field(s) from its parameter(s) and keeps all others"""
+    P = c.P
+    n = 0
+    for b in P.all_bodies(crate='rodbus'):
+        if not b.path.startswith(adt + '::') or '{' in b.path[len(adt):] or not b.sig_in or norm(b.sig_in[0]) != adt or norm(b.sig_out or '') != adt:
+            continue
+        m = b.path.rsplit('::', 1)[-1]
+        fl = q.builder_fields(b, adt)
+        own = setters.get(m)
+        ok = fl is not None and all(v == 'kept' or (v == 'param' and (own is None or k in own)) for k, v in fl.items()) and (own is None or all(fl.get(k) == 'param' for k in own))
+        c.ob('builder/%s' % m, ok, '%s::%s sets %s from its argument and keeps every other option as it was' % (adt.rsplit('::', 1)[-1], m, '/'.join(own) if own else 'its own option'), str(fl), loc_of(b))
+        n += 1
+    return n
+
+
+@rule('C12', 'R12.7', 'the limit counted against is the limit configured: ClientOptions builders keep it, the TCP/TLS task hands it to the loop, the loop to the counter')
+def r7(c):
+    P = c.P
+    n = builder_discipline(c, CO, {'channel_logging': ['channel_logging'], 'max_queued_requests': ['max_queued_requests'], 'decode_level': ['decode_level'], 'max_response_timeouts': ['max_timeouts']})
+    c.floor('ClientOptions builder methods', n, 4)
+    t = P.fn('rodbus::tcp::client::TcpChannelTask::new')
+    nw = one(t.calls(CL + '::new'), 'ClientLoop::new in TcpChannelTask::new')
+    s = q.sem(t, nw.args[4])
+    c.ob('task/limit', q.sem_is_name(t, s, 'options') and bool(s.proj) and s.proj[-1].endswith(':max_timeouts'), 'TcpChannelTask::new passes options.max_timeouts to ClientLoop::new', repr(s), nw.loc())
+    l = P.fn(CL + '::new')
+    tn = one(l.calls(TC + '::new'), 'TimeoutCounter::new in ClientLoop::new')
+    c.ob('loop/limit', q.is_name(l, tn.args[0], 'max_timeouts'), 'ClientLoop::new builds its counter from the max_timeouts it was given', '', tn.loc())
+    ag = [(i, s_) for i, s_ in l.aggregates(CL)]
+    okf = len(ag) == 1
+    if okf:
+        f = dict(zip(ag[0][1]['rv']['fields'], ag[0][1]['rv']['a']))
+        sv = q.sem(l, f.get('timeout_counter'))
+        okf = sv.kind == 'call' and sv.cs is tn
+    c.ob('loop/field', okf, 'and that counter is the loop\'s timeout_counter', '', loc_of(l))
